@@ -227,6 +227,23 @@ def make_ext(dst: Path, repo_copy: Path, profile: str, shims: list[str], shim_di
     t = t.replace("@PATCHES@", patches_text(shims, shim_dir))
     (dst / "Cargo.toml").write_text(t)
     shutil.copy(REPO / "Cargo.lock", dst / "Cargo.lock")
+    # C19: the back-off parameters at the client's call site, from the CURRENT source
+    cs = extract_backoff_callsite()
+    if cs:
+        (dst / "src" / "callsite.rs").write_text(
+            f"pub mod callsite {{ pub const INITIAL_MS: u64 = {cs[0]}; pub const MULT: u32 = {cs[1]}; }}\n")
+    else:
+        (dst / "src" / "callsite.rs").write_text("compile_error!(\"Backoff::new call site not recognised in penguin/src/client/mod.rs\");\n")
+
+
+def extract_backoff_callsite():
+    f = REPO / "penguin" / "src" / "client" / "mod.rs"
+    if not f.exists():
+        return None
+    m = re.search(r"Backoff::new\(\s*Duration::from_millis\((\d[\d_]*)\)\s*,\s*Duration::from_millis\(\s*args\.max_retry_interval\s*\)\s*,\s*(\d+)\s*,\s*args\.max_retry_count\s*,?\s*\)", f.read_text())
+    if not m:
+        return None
+    return int(m.group(1).replace("_", "")), int(m.group(2))
 
 
 def cargo_env():
@@ -412,6 +429,8 @@ def run_harness(meta, spec: H, profile: str, workdir: Path, tier: str):
     out = wd / "h.out"
     mem = spec.mem_gb or (8 if tier == "quick" else 20)
     tmo = spec.timeout or (600 if tier == "quick" else 2400)
+    if os.environ.get("VERIF_TIMEOUT"):
+        tmo = int(os.environ["VERIF_TIMEOUT"])
     r = dict(name=name, pretty=meta["pretty_name"], profile=profile, verdict=None, wall_s=0.0, note=spec.note)
     t0 = time.time()
     steps = [
@@ -867,6 +886,7 @@ def main():
     ap.add_argument("--harness", default=None, help="regex: run only matching harnesses")
     ap.add_argument("--keep", action="store_true")
     ap.add_argument("--no-replay", action="store_true")
+    ap.add_argument("--timeout", type=int, default=0, help="override the per-harness solver timeout (seconds), for experiments")
     ap.add_argument("--replay", default=None, help="replay file written by an earlier run: re-runs that harness")
     a = ap.parse_args()
     seed = int(os.environ.get("VERIF_SEED", "0") or 0)
@@ -877,6 +897,8 @@ def main():
         only = "^" + re.escape(j["harness"]) + "$"
         tier = "thorough"
     jobs = a.jobs or (12 if tier == "quick" else 6)
+    if a.timeout:
+        os.environ["VERIF_TIMEOUT"] = str(a.timeout)
     rc = run_property(a.property.upper(), tier, jobs, only, a.keep, not a.no_replay, seed)
     sys.exit(rc)
 
